@@ -18,3 +18,10 @@ Fixpoint chk_replay (cs : list rcase) (i : nat) : nat * list nat :=
   match cs with [] => (O, [])
   | c :: r => let '(m, fl) := chk_replay r (S i) in match rwhy c with O => (m, fl) | _ => (S m, i :: fl) end
   end.
+
+(* the data-mismatch warning: model `warns` against what the implementation announced *)
+Record wcase := { w_spec : spec; w_frame : frame; w_warned : bool }.
+Fixpoint chk_warn (cs : list wcase) (i : nat) : nat * list nat :=
+  match cs with [] => (O, [])
+  | c :: r => let '(m, fl) := chk_warn r (S i) in if Bool.eqb (warns (w_spec c) (w_frame c)) (w_warned c) then (m, fl) else (S m, i :: fl)
+  end.
